@@ -21,8 +21,12 @@ inductive Ev where
   /-- a datagram of n bytes for this connection arrived from ANOTHER address and did not migrate the
       path: it is not credited to this path -/
   | foreign (n : Nat)
-  /-- the address became validated (Handshake packet processed, token, PATH_RESPONSE) -/
-  | validate
+  /-- a Handshake-space packet of the peer was processed (RFC 9000 8.1: the peer has read the first flight) -/
+  | handshakePacketProcessed
+  /-- the connection-creating Initial carried a token this endpoint had issued for the address (Retry / NEW_TOKEN) -/
+  | tokenValidated
+  /-- a PATH_RESPONSE echoing a PATH_CHALLENGE sent to the path's address was processed (RFC 9000 8.2.3) -/
+  | pathResponseMatched
   /-- one `poll_transmit` call: the datagram loop tries to build datagrams of these sizes in turn,
       each gated; `seg` is the segment size used in the gate (every datagram is at most `seg`) -/
   | poll (seg : Nat) (sizes : List Nat)
@@ -40,7 +44,9 @@ def emit (p : Path) (seg : Nat) : Nat → List Nat → List Nat
 def step (p : Path) : Ev → Path
   | .recv n => { p with recvd := p.recvd + n }
   | .foreign _ => p
-  | .validate => { p with validated := true }
+  | .handshakePacketProcessed => { p with validated := true }
+  | .tokenValidated => { p with validated := true }
+  | .pathResponseMatched => { p with validated := true }
   | .poll seg sizes => { p with sent := p.sent + (emit p seg 0 sizes).sum }
   | .migrate n => { validated := false, sent := 0, recvd := n }
 
@@ -50,6 +56,28 @@ def Ev.wf (M : Nat) : Ev → Prop
   | _ => True
 
 def run (p : Path) (evs : List Ev) : Path := evs.foldl step p
+
+/-- the causes of address validation the property lists -/
+def Ev.isCause : Ev → Bool
+  | .handshakePacketProcessed => true
+  | .tokenValidated => true
+  | .pathResponseMatched => true
+  | _ => false
+
+/-- What ONE received datagram may do to the flag, from facts the harness derives from the PEER's transmit record
+    (trace operations `amp rx` / `amp foreign`): `hs` a Handshake-space packet the peer built is in the datagram,
+    `pr` a PATH_RESPONSE in it echoes a PATH_CHALLENGE sent to the path's address. `some b` = the flag must be `b`
+    afterwards; `none` = a cause is present and the receiver may or may not have used it (the property lets a server
+    treat the address as validated, it does not oblige it: a duplicate, an older challenge, a datagram from another
+    address, a Handshake packet protected with keys of an earlier incarnation of the receiver). -/
+def rxVerdict (validated hs pr : Bool) : Option Bool :=
+  if validated then some true
+  else if hs || pr then none
+  else some false
+
+/-- the events one received datagram stands for -/
+def rxEvents (hs pr : Bool) : List Ev :=
+  (if hs then [Ev.handshakePacketProcessed] else []) ++ (if pr then [Ev.pathResponseMatched] else [])
 
 end QM.Amp
 
